@@ -1,5 +1,7 @@
 import WacModel.Proto
 import WacModel.Spec.Names
+import WacModel.NameOps
+import WacModel.Spec.NameOps
 /-
   Driver for C15.  Case kinds:
     compat  <a> <b> <impl: 0|1>
@@ -7,6 +9,11 @@ import WacModel.Spec.Names
     ver     <s> <impl: "major.minor.patch|pre|build" or ERR>
     vlt     <a> <b> <impl: 0|1>            (a < b for two version strings that parse, no pre)
     map     <n> (<name> <shadow 0|1> <impl ok 0|1>)*n <q> (<query> <impl: index or none>)*q
+  A `map` case is judged against the specification first (every call sequence, including
+  shadowing re-insertions and rejected duplicates): each call's acceptance against
+  `Spec.accepts` on the effective entries so far, each answer against `Spec.getSpec` on
+  `Spec.effective` of the whole sequence (`Props.C15.runOps_get_eq_getSpec`); then against the
+  model (`NameMap.insert` / `NameMap.get`).
 -/
 open Wac Wac.Proto Wac.Spec
 
@@ -22,28 +29,32 @@ def judgeMap (fs : List (List Char)) : String :=
   | n :: rest =>
     let n := natOf n
     -- inserts
-    let rec ins (k : Nat) (idx : Nat) (fs : List (List Char)) (m : NameMap Nat) (es : List (Str × Nat))
-        (distinct : Bool) : Option (List (List Char) × NameMap Nat × List (Str × Nat) × Bool) ⊕ String :=
+    let rec ins (k : Nat) (idx : Nat) (fs : List (List Char)) (m : NameMap Nat) (es : List (Str × Nat)) :
+        Option (List (List Char) × NameMap Nat × List (Str × Nat)) ⊕ String :=
       match k with
-      | 0 => .inl (some (fs, m, es, distinct))
+      | 0 => .inl (some (fs, m, es))
       | k + 1 =>
         match fs with
         | name :: sh :: implOk :: fs' =>
           let sh := sh == ['1']
-          match m.insert name sh idx with
-          | none =>
-            if implOk == ['0'] then ins k (idx + 1) fs' m es false
-            else .inr s!"insert#{idx}: model=err impl=ok"
-          | some m' =>
-            if implOk == ['1'] then
-              let dup := es.any (·.1 == name)
-              ins k (idx + 1) fs' m' (es.filter (·.1 != name) ++ [(name, idx)]) (distinct && !dup)
-            else .inr s!"insert#{idx}: model=ok impl=err"
+          let io := implOk == ['1']
+          -- specification first: a new name is always accepted, a present one only with shadowing
+          if accepts es name sh != io then
+            .inr s!"SPEC\tinsert#{idx} {escape name} shadow={b2s sh}: spec accepts={b2s (accepts es name sh)} impl={b2s io}"
+          else
+            let es' := effStep es (name, sh, idx)
+            match m.insert name sh idx with
+            | none =>
+              if !io then ins k (idx + 1) fs' m es'
+              else .inr s!"MODEL\tinsert#{idx}: model=err impl=ok"
+            | some m' =>
+              if io then ins k (idx + 1) fs' m' es'
+              else .inr s!"MODEL\tinsert#{idx}: model=ok impl=err"
         | _ => .inl none
-    match ins n 0 rest {} [] true with
-    | .inr e => "MODEL\t" ++ e
+    match ins n 0 rest {} [] with
+    | .inr e => e
     | .inl none => "BAD\tmap fields"
-    | .inl (some (fs, m, es, distinct)) =>
+    | .inl (some (fs, m, es)) =>
       match fs with
       | _q :: qs =>
         let rec qry (fuel : Nat) (fs : List (List Char)) : String :=
@@ -56,7 +67,7 @@ def judgeMap (fs : List (List Char)) : String :=
               let mo := showOpt toString (m.get q)
               let so := showOpt toString (getSpec es q)
               let io := if impl == "none".toList then "none" else "some(" ++ String.ofList impl ++ ")"
-              if distinct && io != so then s!"SPEC\tget {escape q}: spec={so} impl={io} model={mo}"
+              if io != so then s!"SPEC\tget {escape q}: spec={so} impl={io} model={mo}"
               else if io != mo then s!"MODEL\tget {escape q}: model={mo} impl={io}"
               else qry fuel fs'
             | _ => "BAD\tquery fields"
